@@ -4,6 +4,8 @@ from jaqalpaq.core.algorithm.visitor import Visitor
 from jaqalpaq.core.circuit import Circuit
 from jaqalpaq.core.block import BlockStatement, LoopStatement
 from jaqalpaq.core.gatedef import GateDefinition
+from jaqalpaq.core.gate import GateStatement
+from jaqalpaq.core.macro import Macro
 
 
 def expand_subcircuits(circuit, prepare_def=None, measure_def=None):
@@ -62,11 +64,31 @@ class SubcircuitExpander(Visitor):
 
     def visit_Circuit(self, circuit):
         new_circuit = Circuit(native_gates=circuit.native_gates)
-        new_circuit.macros.update(circuit.macros)
+        # Macros are defined in dependency order, so a macro calling an
+        # earlier macro picks up the already expanded definition.
+        self.macros = {}
+        for name, macro in circuit.macros.items():
+            self.macros[name] = self.visit(macro)
+        new_circuit.macros.update(self.macros)
         new_circuit.constants.update(circuit.constants)
         new_circuit.registers.update(circuit.registers)
         new_circuit.body.statements.extend(self.visit(circuit.body).statements)
         return new_circuit
+
+    def visit_Macro(self, macro):
+        new_body = self.visit(macro.body)
+        if new_body == macro.body:
+            return macro
+        return Macro(macro.name, macro.parameters, new_body)
+
+    def visit_GateStatement(self, gate):
+        """Calls of a macro whose body changed must refer to the new definition."""
+        new_def = self.macros.get(gate.name)
+        if new_def is None or new_def is gate.gate_def:
+            return gate
+        if not isinstance(gate.gate_def, Macro):
+            return gate
+        return GateStatement(new_def, gate.parameters)
 
     def visit_LoopStatement(self, loop):
         return LoopStatement(loop.iterations, self.visit(loop.statements))
